@@ -47,13 +47,14 @@ type Plan struct {
 }
 
 type Case struct {
-	Side    string   `json:"side"` // server | client
+	Side    string   `json:"side"` // server | client | nego (server side, negotiation inside the measured stream)
 	Msize   uint32   `json:"msize"`
 	Dotu    bool     `json:"dotu"`
 	Seed    uint64   `json:"seed"`
 	TagBase uint16   `json:"tagbase,omitempty"`
 	Frames  []Frame  `json:"frames,omitempty"`
 	Rounds  [][]Call `json:"rounds,omitempty"`
+	Nego    *Nego    `json:"nego,omitempty"`
 	Plan    Plan     `json:"plan"`
 }
 
@@ -151,11 +152,26 @@ func layout(c *Case) (n int, bounds []int, err error) {
 		}
 		return l.total, l.bounds, nil
 	}
-	b, err := buildStream(c)
+	b, err := build(c)
 	if err != nil {
 		return 0, nil, err
 	}
 	return len(b.stream), b.bounds, nil
+}
+
+// build and deliver select the server-side stream class.
+func build(c *Case) (*built, error) {
+	if c.Side == "nego" {
+		return buildNego(c)
+	}
+	return buildStream(c)
+}
+
+func deliver(c *Case, b *built, cuts []int) (*obs, error) {
+	if c.Side == "nego" {
+		return runNego(c, b, cuts)
+	}
+	return runServer(c, b, cuts)
 }
 
 // RunCase executes one case: the reference delivery and the case's plan, each
@@ -182,18 +198,18 @@ func RunCase(c *Case) error {
 		}
 		return nil
 	}
-	b, err := buildStream(c)
+	b, err := build(c)
 	if err != nil {
 		return err
 	}
-	ref, err := runServer(c, b, cutsOf(Plan{Kind: "frame"}, len(b.stream), b.bounds))
+	ref, err := deliver(c, b, cutsOf(Plan{Kind: "frame"}, len(b.stream), b.bounds))
 	if err != nil {
 		return fmt.Errorf("reference delivery (one chunk per frame): %w", err)
 	}
 	if c.Plan.Kind == "frame" {
 		return nil
 	}
-	got, err := runServer(c, b, cutsOf(c.Plan, len(b.stream), b.bounds))
+	got, err := deliver(c, b, cutsOf(c.Plan, len(b.stream), b.bounds))
 	if err != nil {
 		return fmt.Errorf("plan %s: %w", c.Plan.Kind, err)
 	}
@@ -262,6 +278,20 @@ func recordAs(test string, c *Case, n int, bounds []int) {
 				break
 			}
 		}
+	}
+	if c.Side == "nego" {
+		same := sameRead(c, cuts, bounds)
+		if same {
+			hx.Label("nego: Tversion and the head of the oversize frame in one chunk")
+		}
+		hx.Label(fmt.Sprintf("nego srvmsize=%d over=%s", c.Nego.SrvMsize, c.Nego.OverKind))
+		if same || split {
+			cb, _ := json.Marshal(cuts)
+			sb, _ := json.Marshal(c)
+			hx.NonTrivial("nego", sb, cb)
+		}
+		hx.Sample(test, sampleOf(c))
+		return
 	}
 	if split && n > int(8*c.Msize) {
 		cb, _ := json.Marshal(cuts)
@@ -389,6 +419,15 @@ func TestPropServer(t *testing.T) {
 	})
 }
 
+func TestPropNego(t *testing.T) {
+	hx.Check(t, "nego", hx.N(60, 1500), func(t *rapid.T) {
+		c := genNego(t)
+		if err := execute("nego", c); err != nil {
+			hx.Failf(t, "nego", c, "%v", err)
+		}
+	})
+}
+
 func TestPropClient(t *testing.T) {
 	hx.Check(t, "client", hx.N(75, 2000), func(t *rapid.T) {
 		c := genClient(t)
@@ -429,8 +468,8 @@ func enumerate(t *testing.T, test string, nstreams int, mk func(k int) *Case) {
 			cl, _ = clientLayout(base)
 			refC, err = runClient(base, cl, frame)
 		} else {
-			bs, _ = buildStream(base)
-			refS, err = runServer(base, bs, frame)
+			bs, _ = build(base)
+			refS, err = deliver(base, bs, frame)
 		}
 		if err = classify(err); err != nil {
 			hx.Violation(test, &rc, "reference delivery: "+err.Error())
@@ -457,7 +496,7 @@ func enumerate(t *testing.T, test string, nstreams int, mk func(k int) *Case) {
 				}
 			} else {
 				var got *obs
-				if got, err = runServer(&c, bs, c.Plan.Cuts); err == nil {
+				if got, err = deliver(&c, bs, c.Plan.Cuts); err == nil {
 					if d := diffObs(refS, got); d != "" {
 						err = fmt.Errorf("behaviour differs from the reference delivery: %s", d)
 					}
@@ -485,6 +524,15 @@ func TestEnumServerSplits(t *testing.T) {
 	}
 	enumerate(t, "server-single-split", ns, enumServerCase)
 	hx.Exhaustive(fmt.Sprintf("server: every single split point of %d request streams of <= 2000 bytes (msize 64 and 100, longer than the 8 x msize receive buffer)", ns))
+}
+
+func TestEnumNegoSplits(t *testing.T) {
+	ns := 4
+	if hx.Thorough() {
+		ns = 6 * hx.NShards
+	}
+	enumerate(t, "nego-single-split", ns, enumNegoCase)
+	hx.Exhaustive(fmt.Sprintf("server: every single split point of %d streams that start with an msize-lowering Tversion and contain one frame above the new msize", ns))
 }
 
 func TestEnumClientSplits(t *testing.T) {
